@@ -477,7 +477,7 @@ fn traffic() -> BoxedStrategy<Traffic> {
     .boxed()
 }
 
-fn strategy() -> BoxedStrategy<Case> {
+pub fn strategy() -> BoxedStrategy<Case> {
     let op = prop_oneof![
         3 => (0usize..2).prop_map(|ty| Op::Browse { ty }),
         2 => (0usize..2).prop_map(|ty| Op::StopBrowse { ty }),
